@@ -12,7 +12,7 @@ package placement
 // exhausted rule list always ends in a rejection); the recovery queue is only handed to force-created applications;
 // a rejected application has no queue path
 //@ func (m *AppPlacementManager) PlaceApplication(app *objects.Application) (err error)
-//@   props C17
+//@   props C17 C16
 //@   sweep
 //@   mode nopanic=off
 //@   loop 1: invariant queueName == ""
@@ -23,6 +23,16 @@ package placement
 //@   at[rejectclears] call objects.Application.SetQueuePath#2: assert arg0 == app && arg1 == "" && queueName == ""
 //@   at[errorclears] call objects.Application.SetQueuePath#1: assert arg0 == app && arg1 == ""
 //@   ensures[rejected] err != nil ==> app.queuePath == ""
+// an existing queue an application is placed in (the default-queue fall back included) was seen to be a leaf and not
+// draining on the way there: a draining leaf takes no new applications
+//@   at[lookup1:C16,C17] call fn.queueFn#1 after: assume ret == qof(arg0)
+//@   at[lookup2:C16,C17] call fn.queueFn#2 after: assume ret == qof(arg0)
+//@   at[drain:C16,C17] call objects.Queue.IsDraining#1 after: assume ret == qdrains(arg0)
+//@   at[leaf:C16,C17] call objects.Queue.IsLeafQueue#1 after: assume ret == qisleaf(arg0)
+//@   at[placedlive:C16,C17] call objects.Application.SetQueuePath#3: assert recname(queueName) || qof(queueName) == nil || (qisleaf(qof(queueName)) && !qdrains(qof(queueName)))
+//@ spec abstract qof(n string) *objects.Queue
+//@ spec abstract qdrains(q *objects.Queue) bool
+//@ spec abstract qisleaf(q *objects.Queue) bool
 
 // ---------------------------------------------------------------- rule implementations
 
